@@ -45,7 +45,10 @@ func TestCheck(t *testing.T) {
 		"into a temp dir; node count cycles 3..10, mode cycles flags/definition-file/split-existing-keys, the rest (threshold incl. default/2/n, 1..3 validators, " +
 		"6 networks + prater alias + custom testnet, deposit-amount sets with/without compounding, single vs per-validator addresses, gas limit, consensus protocol, " +
 		"definition version v1.0..v1.11 in definition-file mode) comes from the case PRNG; every artifact is cross-checked and combine.Combine is run on every " +
-		"threshold-size subset of node directories (n<=6, sampled above). W2 (second block): one shard (1/4 of the alterations) of one document (lock or definition) of " +
+		"threshold-size subset of node directories (n<=6, sampled above). W1-definition-file (second block): `create cluster --definition-file` with a harness-written definition for every " +
+		"version that carries deposit amounts (v1.8..v1.11) x every order class of deposit_amounts (ascending, descending, duplicates, top-up last, unsorted, single, absent), with/without compounding; " +
+		"same artifact checks, plus: the lock's definition equals the definition file in every hashed member (config_hash equal, definition_hash = hash of the file's definition completed with the " +
+		"generated operator ENRs), 2 combine subsets. W2 (third block): one shard (1/4 of the alterations) of one document (lock or definition) of " +
 		"one valid, fully signed base per format version x variant (cluster.NewForT + deposit data added and lock re-signed by the harness; from v1.3 on operators/creator may be " +
 		"ERC-1271 contract accounts verified through a harness Safe model as eth1 client: single-entry before v1.11, and in every v1.11 base a Safe with 3-5 entries of which 2 are checked, " +
 		"a fully checked 2-entry Safe, an EOA, further operators with up to 32 entries and a 2-4 entry creator); every JSON node gets every " +
@@ -65,13 +68,15 @@ func TestCheck(t *testing.T) {
 	r.RacePkgs(false, "cluster", "cmd")
 
 	nCLI := r.N(12, 150)
+	nDefFile := len(defFileVersions) * len(defFileOrders) * r.N(1, 4)
 	variants := r.N(1, 8)
 	nVer := len(allVersions)
 	nTamper := variants * nVer * 2 * tamperShards
 	nRound := variants * nVer
 
-	r.Require("cli_runs", int64(nCLI))
-	r.Require("locks_verified", int64(nCLI))
+	r.Require("cli_runs", int64(nCLI+nDefFile))
+	r.Require("locks_verified", int64(nCLI+nDefFile))
+	r.Require("deffile_runs", int64(nDefFile))
 	r.Require("shares_checked", int64(nCLI*3))
 	r.Require("deposits_checked", int64(nCLI))
 	r.Require("combine_runs", int64(nCLI*3))
@@ -82,10 +87,13 @@ func TestCheck(t *testing.T) {
 	r.Require("hash_sensitivity_checked", int64(variants*nVer*100))
 	r.Require("roundtrips", int64(nRound*30))
 
-	r.Cases(nCLI+nTamper+nRound, 0, func(c *kit.Case) {
-		switch i := c.Idx; {
-		case i < nCLI:
-			runCLICase(c, i)
+	r.Cases(nCLI+nDefFile+nTamper+nRound, 0, func(c *kit.Case) {
+		switch i := c.Idx - nDefFile; {
+		case c.Idx < nCLI:
+			runCLICase(c, c.Idx)
+		case c.Idx < nCLI+nDefFile:
+			j := c.Idx - nCLI
+			runCLIConf(c, c.Idx, genDefFileConf(j, c.Rng, r.Thorough()), 2)
 		case i < nCLI+nTamper:
 			j := i - nCLI
 			shard := j % tamperShards
